@@ -3133,6 +3133,7 @@ status_t MessageField :: TemplatedUnflatten(Message & unflattenTo, const String 
       {
          const uint32 itemSize = calcSizeUnflat.ReadInt32();
          MRETURN_ON_ERROR(calcSizeUnflat.GetStatus());
+         if (itemSize > calcSizeUnflat.GetNumBytesAvailable()) return B_BAD_DATA;  // declared item-size can't be larger than what remains
 
          if (doCustomMessageUnflatten)
          {
